@@ -105,12 +105,12 @@ func (l *loaded) viol(what, op, want, got string) {
 	load := "trie.unmarshal " + lp.X(l.stream)
 	if len(load) > 4000 {
 		fn := filepath.Join(l.c.OutDir, fmt.Sprintf("violation-%d.script", len(l.c.Violations)))
-		os.WriteFile(fn, []byte("trie.fresh i32\n"+load+"\n"+op+"\n"), 0o644)
+		os.WriteFile(fn, []byte("trie.fresh "+curEnc+"\n"+load+"\n"+op+"\n"), 0o644)
 		load = trunc(load) + " (full script: " + fn + ")"
 	}
 	l.c.Violate(lp.Violation{
 		What:     fmt.Sprintf("%s [%s, %s, %d keys]", what, l.variant, l.what, len(l.o.keys)),
-		Script:   []string{"trie.fresh i32", load, op},
+		Script:   []string{"trie.fresh " + curEnc, load, op},
 		Expected: want, Got: got,
 	})
 }
@@ -126,7 +126,7 @@ func (l *loaded) expect(what, op, want string) bool {
 
 // load: a fresh instance that only knows the encoder, then Unmarshal of the stream.
 func (l *loaded) load() bool {
-	l.c.Do("trie.fresh i32")
+	l.c.Do("trie.fresh " + curEnc)
 	return l.expect("legacy stream must load without error", "trie.unmarshal "+lp.X(l.stream), "ok")
 }
 
@@ -286,8 +286,36 @@ func runVariant(c *lp.Ctx, variant, class string, keys []string, every, nq, nsca
 	runVariantMode(c, viaLines, variant, class, keys, every, nq, nscan)
 }
 
+// curEnc / curVals: the value encoder of the instance that loads the stream and the fixed-width values
+// written into it (the archived files hold int32 0..n-1; section "value widths" switches to 1, 2, 3,
+// 7 and 8 byte values).
+var (
+	curEnc  = "i32"
+	curVals = I32Vals
+)
+
+// widthVals: distinct values of w bytes.
+func widthVals(w int) func(n int) [][]byte {
+	return func(n int) [][]byte {
+		out := make([][]byte, n)
+		for i := range out {
+			x := uint64(i+1) * 0x9E3779B97F4A7C15
+			b := make([]byte, w)
+			for j := range b {
+				b[j] = byte(x >> uint(8*(j%8)))
+			}
+			b[0] = byte(i)
+			if w > 1 {
+				b[1] = byte(i >> 8)
+			}
+			out[i] = b
+		}
+		return out
+	}
+}
+
 func runVariantMode(c *lp.Ctx, mode int, variant, class string, keys []string, every, nq, nscan int) {
-	vals := I32Vals(len(keys))
+	vals := curVals(len(keys))
 	if vr, ok := ParseVariant3(variant); ok {
 		enc, nodes, maxStep := Encodable3(vr, keys)
 		if !enc {
@@ -410,6 +438,34 @@ func keySet(c *lp.Ctx, it int, size int) gen.KeySet {
 	}
 }
 
+// valueWidths: the archived files only hold 4-byte values; the layouts store any fixed width.  Streams
+// with 1, 2, 3, 7 and 8 byte values (3 and 7 are not powers of two) through script lines (both sides)
+// and with every key through the API.
+func valueWidths(c *lp.Ctx, all []string, size int) {
+	c.Comment("section: value widths")
+	defer func() { curEnc, curVals = "i32", I32Vals }()
+	it := 0
+	for _, ew := range []struct {
+		enc string
+		w   int
+	}{{"i8", 1}, {"i16", 2}, {"bytes3", 3}, {"te7", 7}, {"i64", 8}} {
+		curEnc, curVals = ew.enc, widthVals(ew.w)
+		for k := 0; k < c.Pick(2, 6); k++ {
+			ks := keySet(c, 2+it, size)
+			if ew.w == 1 && len(ks.Keys) > 200 {
+				ks.Keys = ks.Keys[:200]
+			}
+			for j := 0; j < 3; j++ {
+				variant := all[(it*3+j)%len(all)]
+				c.Hit(fmt.Sprintf("value-width:%d", ew.w))
+				runVariantMode(c, viaLines, variant, ks.Class+"+width", ks.Keys, 1, c.Pick(20, 80), c.Pick(3, 10))
+				runVariantMode(c, goSideOnly, variant, ks.Class+"+width", ks.Keys, 1, 0, 0)
+			}
+			it++
+		}
+	}
+}
+
 func withEmptyKey(keys []string) []string {
 	if len(keys) > 0 && keys[0] == "" {
 		return keys
@@ -464,6 +520,7 @@ func genC06(c *lp.Ctx) {
 			runVariant(c, variant, ks.Class, ks.Keys, 1, c.Pick(40, 150), c.Pick(6, 20))
 		}
 	}
+	valueWidths(c, all, size)
 	malformed(c)
 	c.Comment("section: limits of the uint16 step")
 	limitShapes(c)
@@ -718,11 +775,14 @@ func DirectCheck(stream []byte, keys []string, vals [][]byte, exact bool, c *lp.
 			bad = fmt.Sprintf("panic: %v", r)
 		}
 	}()
-	st, _ := slim.NewSlimTrie(encode.I32{}, nil, nil)
+	var enc encode.Encoder = encode.I32{}
+	if len(vals) > 0 && curEnc != "i32" {
+		enc = encode.Bytes{Size: len(vals[0])}
+	}
+	st, _ := slim.NewSlimTrie(enc, nil, nil)
 	if err := st.Unmarshal(stream); err != nil {
 		return "load: " + err.Error()
 	}
-	enc := encode.I32{}
 	eq := func(v interface{}, i int) bool {
 		if i < 0 || i >= len(keys) {
 			return v == nil
